@@ -210,6 +210,188 @@ class C03(Check):
                         self.extra_cov["repair_probes"] = n3
                         return
         self.extra_cov["repair_probes"] = n3
+        # (4) ONE tool object registered in SEVERAL engines with different grants (a sandbox granting nothing, a trusted
+        #     engine granting the declaration, a restricted engine rebuilt from the trusted one's `tools.values()`): what
+        #     the trusted engine does with the tool must not widen what the sandbox lets through.  The declaration is a
+        #     mutable set / a frozenset / a list; it is judged against the copy taken when the tool was made.
+        n4 = 0
+        decl_shapes = [("set", lambda d: set(d)), ("frozenset", lambda d: frozenset(d)), ("list", lambda d: list(d))]
+        for shape, mk in decl_shapes:
+            for kind in ("stub", "simple"):
+                for order in ("trusted-first", "sandbox-first", "rebuilt"):
+                    for entry in ("expr", "call", "loop"):
+                        ran = []
+                        declared = {caps[1], caps[2]}
+                        try:
+                            if kind == "stub":
+                                t = MC.ToolStub("fetch", set(), "const", [], MC.Interner(), "required_capabilities")
+                                t.required_capabilities = mk(declared)
+                                t.execute = (lambda *a, **k: ran.append(where[0]) or 1)
+                            else:
+                                t = SimpleTool("fetch", "d", lambda *a, **k: ran.append(where[0]) or 1,
+                                               required_capabilities=mk(declared))
+                            where = ["?"]
+                            sandbox = Mitochondria(silent=True, allowed_capabilities=set(), max_ros=1e9)
+                            partial = Mitochondria(silent=True, allowed_capabilities={caps[1]}, max_ros=1e9)
+                            trusted = Mitochondria(silent=True, allowed_capabilities=set(declared), max_ros=1e9)
+                            engines = {"sandbox": sandbox, "partial": partial, "trusted": trusted}
+                            for e in (trusted, partial, sandbox):
+                                e.engulf_tool(t)
+
+                            def use(who):
+                                where[0] = who
+                                m = engines[who]
+                                if entry == "expr":
+                                    m.metabolize("fetch(1)")
+                                elif entry == "call":
+                                    m.execute_tool_call(ToolCall(id="1", name="fetch", arguments={}))
+                                else:
+                                    Nucleus(provider=FakeProvider([[{"name": "fetch", "args": {}}]])).transcribe_with_tools(
+                                        "p", m, max_iterations=2)
+                                m.list_tools()
+                            if order == "trusted-first":
+                                seq = ["trusted", "partial", "sandbox", "trusted", "sandbox", "partial"]
+                            elif order == "sandbox-first":
+                                seq = ["sandbox", "partial", "trusted", "sandbox", "partial"]
+                            else:
+                                use("trusted")
+                                rebuilt = Mitochondria(silent=True, allowed_capabilities=set(), max_ros=1e9)
+                                for tool in list(trusted.tools.values()):
+                                    rebuilt.engulf_tool(tool)
+                                engines["rebuilt"] = rebuilt
+                                seq = ["rebuilt", "sandbox", "trusted", "rebuilt"]
+                            for who in seq:
+                                use(who)
+                        except BaseException as e:  # noqa
+                            ran.append("raised:" + type(e).__name__)
+                        n4 += 1
+                        bad = [x for x in ran if x in ("sandbox", "partial", "rebuilt")]
+                        if bad:
+                            self.violations.append(Violation(
+                                "C03/disallowed-tool-ran",
+                                f"one tool object (declares two capabilities as a {shape}, {kind}) registered in a sandbox (grants "
+                                f"nothing), a partial engine (grants one) and a trusted engine (grants both), order {order}, "
+                                f"entry point '{entry}': the tool body ran in {bad}",
+                                case={"shared_tool_probe": True, "declaration": shape, "tool": kind, "order": order, "entry": entry}))
+                            self.extra_cov["shared_tool_probes"] = n4
+                            return
+        self.extra_cov["shared_tool_probes"] = n4
+        # (5) an ADVERSARIAL provider hands over call objects that do not hold still: a `name` that changes between reads
+        #     (harmless name first, then a tool outside the grant - and the other way round), an `arguments` mapping that
+        #     registers a tool outside the grant under the requested name while it is being read.  Whatever the engine
+        #     makes of such a call, no tool body outside the grant may run.
+        n5 = 0
+
+        class ShiftyCall:
+            def __init__(self, names, arguments):
+                self._names, self._k, self.id, self.arguments = list(names), 0, "s1", arguments
+
+            @property
+            def name(self):
+                v = self._names[min(self._k, len(self._names) - 1)]
+                self._k += 1
+                return v
+
+        class RegisteringArgs(dict):
+            """a mapping that (re-)registers `name` with a tool outside the grant whenever it is read"""
+            def __init__(self, engine, tool, items=()):
+                super().__init__(items)
+                self._engine, self._tool = engine, tool
+
+            def _hit(self):
+                self._engine.engulf_tool(self._tool)
+
+            def keys(self):
+                self._hit()
+                return super().keys()
+
+            def items(self):
+                self._hit()
+                return super().items()
+
+            def __iter__(self):
+                self._hit()
+                return super().__iter__()
+
+            def __getitem__(self, k):
+                self._hit()
+                return super().__getitem__(k)
+
+            def copy(self):
+                self._hit()
+                return dict(self)
+
+        for switch_after in (1, 2, 3, 4, 5, 6):
+            for direction in ("harmless-then-forbidden", "forbidden-then-harmless"):
+                for entry in ("call", "loop"):
+                    ran = []
+                    try:
+                        m = Mitochondria(silent=True, allowed_capabilities={caps[0]}, max_ros=1e9)
+                        m.engulf_tool(SimpleTool("echo", "d", lambda *a, **k: ran.append("echo") or 1))
+                        m.engulf_tool(SimpleTool("wire_money", "d", lambda *a, **k: ran.append("wire_money") or 1,
+                                                 required_capabilities={caps[3]}))
+                        first, second = ("echo", "wire_money") if direction.startswith("harmless") else ("wire_money", "echo")
+                        call = ShiftyCall([first] * switch_after + [second] * 50, {})
+                        if entry == "call":
+                            m.execute_tool_call(call)
+                        else:
+                            prov = FakeProvider([[{"name": "echo", "args": {}}]])
+                            orig_resp = prov.complete_with_tools
+
+                            def cwt(prompt, tools=None, config=None, _o=orig_resp, _c=call):
+                                resp, calls = _o(prompt, tools=tools, config=config)
+                                return resp, ([_c] if calls else calls)
+                            prov.complete_with_tools = cwt
+                            Nucleus(provider=prov).transcribe_with_tools("p", m, max_iterations=2)
+                    except BaseException as e:  # noqa
+                        ran.append("raised:" + type(e).__name__)
+                    n5 += 1
+                    if "wire_money" in ran:
+                        self.violations.append(Violation(
+                            "C03/disallowed-tool-ran",
+                            f"a call object whose name reads {first!r} {switch_after} time(s) and {second!r} afterwards, entry point "
+                            f"'{entry}': the tool outside the grant ran",
+                            case={"shifty_call_probe": True, "direction": direction, "switch_after": switch_after, "entry": entry}))
+                        self.extra_cov["adversarial_call_probes"] = n5
+                        return
+        for entry in ("call", "loop"):
+            for base in ("echo", "ghost"):
+                ran = []
+                try:
+                    m = Mitochondria(silent=True, allowed_capabilities={caps[0]}, max_ros=1e9)
+                    m.engulf_tool(SimpleTool("echo", "d", lambda *a, **k: ran.append("echo") or 1))
+                    evil = SimpleTool(base, "d", lambda *a, **k: ran.append("evil") or 1, required_capabilities={caps[3]})
+                    args = RegisteringArgs(m, evil, {})
+                    if entry == "call":
+                        m.execute_tool_call(ToolCall(id="1", name=base, arguments=args))
+                        del ran[:]                 # the call during which the registration happened may run the OLD tool
+                        m.execute_tool_call(ToolCall(id="2", name=base, arguments={}))
+                    else:
+                        prov = FakeProvider([[{"name": base, "args": {}}], [{"name": base, "args": {}}]])
+                        orig_resp = prov.complete_with_tools
+                        state = {"n": 0}
+
+                        def cwt2(prompt, tools=None, config=None, _o=orig_resp, _a=args, _s=state):
+                            resp, calls = _o(prompt, tools=tools, config=config)
+                            if calls and _s["n"] == 0:
+                                _s["n"] = 1
+                                for c in calls:
+                                    c.arguments = _a
+                            return resp, calls
+                        prov.complete_with_tools = cwt2
+                        Nucleus(provider=prov).transcribe_with_tools("p", m, max_iterations=3)
+                except BaseException as e:  # noqa
+                    ran.append("raised:" + type(e).__name__)
+                n5 += 1
+                if "evil" in ran:
+                    self.violations.append(Violation(
+                        "C03/disallowed-tool-ran",
+                        f"an arguments mapping that registers a tool outside the grant under the requested name {base!r} while it is "
+                        f"read, entry point '{entry}': that tool ran",
+                        case={"registering_args_probe": True, "name": base, "entry": entry}))
+                    self.extra_cov["adversarial_call_probes"] = n5
+                    return
+        self.extra_cov["adversarial_call_probes"] = n5
 
     def exhaustive_cases(self):
         """One LLM turn with several tool calls: every order of a disallowed and an allowed call, with every pattern of
@@ -305,12 +487,15 @@ class C03(Check):
             results.append(bool(r.success))
             return r
         m.execute_tool_call = wrapped
+        declared_at_reg = {}
         for op in case["ops"]:
             start = len(rec.log)
             if op["op"] == "reg":
                 t = MC.ToolStub(op["name"], set(rec.capset(op["caps"])) | set(op.get("tags", [])), op["behaviour"], rec.log, I,
                                 op["attr"])
                 rec.tools.append(t)
+                # the declaration as GIVEN at registration (the tool's own attribute may be changed by the code under test)
+                declared_at_reg[t.name] = sorted(MC.cap_code(rec, c) for c in getattr(t, op["attr"]))
                 via = op.get("via", "object")
                 caps_decl = getattr(t, op["attr"])
                 if via == "simple" and op["attr"] == "required_capabilities":
@@ -364,9 +549,7 @@ class C03(Check):
             obs.append([-1, code])
             obs += MC.Recorder.trace_obs(sub)
             steps.append({"op": op["op"], "code": code, "raised": repr(raised) if raised else None,
-                          "invoked": [(e[1], sorted(MC.cap_code(rec, c) for c in
-                                             (getattr(registry.get(e[1]), "required_capabilities", None)
-                                              or getattr(registry.get(e[1]), "capabilities", None) or set())))
+                          "invoked": [(e[1], declared_at_reg.get(e[1], []))
                                       for e in new if e[0] == "tool"],
                           "stale": [e[1] for e in new if e[0] == "tool" and len(e) > 5 and e[5] is not registry.get(e[1])],
                           "requested": self._requested(op, registry)})
